@@ -162,6 +162,9 @@ func (e *Engine) verifyFunc(c *Contract) (rep *FuncReport) {
 	}
 	st := &State{Reach: TTrue, Heap: map[string]T{}, Sorts: map[string]string{}, Top: s.declConst("top0", SInt), Locks: map[string]bool{}}
 	s.assume(Ge(st.Top, I(0)))
+	// the ghost event clock is relative to the function entry: nothing has happened yet
+	s.ghostSet(st, "evclock", zeroOfSort(arrSort(SInt)))
+	s.ghostSet(st, "evlast", zeroOfSort(arrSort(SInt)))
 	fr := &Frame{sess: s, fn: fn, depth: 0, top: true, contract: c, stack: []*ssa.Function{fn}, oblPfx: short, nSafety: map[string]int{}}
 	for _, p := range fn.Params {
 		v := Val{Typ: p.Type()}
